@@ -27,6 +27,9 @@ import (
 //	{"op":"open"}                                   socket.Connect() / Manager.Open()  (only when down)
 //	{"op":"reply"}                                  server sends the CONNECT reply     (only when pending)
 //	{"op":"close"}                                  server closes the connection       (when pending/connected)
+//	{"op":"timeout","id":n}                        the ack time-out of the emit with ack id n expires now
+//	                                                (only in histories run one at a time: the timer goroutines
+//	                                                are held at the yield point "ack-timer-after-sleep")
 //	{"op":"recv","l":L,"id":n|-1,"hs":"NS.."}       server sends EVENT "e<hs>"(L) with ack id n; the client
 //	                                                has one handler per letter: N no ack parameter,
 //	                                                S ack parameter called at once, Q ack parameter not called
@@ -46,8 +49,12 @@ type offOp struct {
 	// "" plain; with an ack and a (long, never expiring) time-out through the Emitter chain:
 	// "t" Timeout(d).Emit, "vt" Volatile().Timeout(d).Emit, "tv" Timeout(d).Volatile().Emit
 	Chain string `json:"chain,omitempty"`
-	ID    int    `json:"id"`
-	Hs    string `json:"hs,omitempty"`
+	// Tmo: emit with an ack and a 1 ms time-out (volatile ones through Volatile().Timeout): the timer
+	// goroutine is parked at the verif yield point after its sleep until a "timeout" operation lets
+	// one go; which emit it belongs to is learnt from the callback and written into that operation
+	Tmo bool   `json:"tmo,omitempty"`
+	ID  int    `json:"id"`
+	Hs  string `json:"hs,omitempty"`
 }
 
 type offCase struct {
@@ -154,8 +161,24 @@ func (s *offServer) send(text string) {
 	cur.Send(p)
 }
 
+// timer goroutines held at the yield point (only while histories with time-outs run, one at a time)
+var offParked chan chan struct{}
+
+func offYield(point string) {
+	if point != "ack-timer-after-sleep" || offParked == nil {
+		return
+	}
+	ch := make(chan struct{})
+	offParked <- ch
+	<-ch
+}
+
 func runOffline(ops []offOp) offCase {
+	ops = append([]offOp{}, ops...)
 	res := offCase{Ops: ops, Wire: [][][4]int{}, Calls: [][][2]int{}}
+	ackOf := map[int]int{} // label -> ack id, by the client's rule: one id per emit with an ack, in order
+	nextAck := 0
+	timedOut := make(chan int, 64) // labels whose time-out callback ran
 	srv := &offServer{}
 	srv.cond = sync.NewCond(&srv.mu)
 	es := eio.NewServer(func(sock eio.ServerSocket) *eio.Callbacks {
@@ -255,7 +278,23 @@ func runOffline(ops []offOp) offCase {
 				args = append(args, sio.Binary{byte(op.L), byte(a)})
 			}
 			const never = 10 * time.Minute
+			if op.Ack || op.Chain != "" || op.Tmo {
+				ackOf[op.L] = nextAck
+				nextAck++
+			}
 			switch {
+			case op.Tmo:
+				l := op.L
+				args = append(args, func(err error) {
+					if err != nil {
+						timedOut <- l
+					}
+				})
+				if op.Vol {
+					socket.Volatile().Timeout(time.Millisecond).Emit("m", args...)
+				} else {
+					socket.Timeout(time.Millisecond).Emit("m", args...)
+				}
 			case op.Chain != "":
 				args = append(args, func(err error) {})
 				switch op.Chain {
@@ -324,6 +363,23 @@ func runOffline(ops []offOp) offCase {
 			}
 			ok = waitC(func() bool { return closes > n0 })
 			state = 'D'
+		case "timeout":
+			// let one held timer goroutine go: it purges the send buffer, then calls the ack with the error
+			select {
+			case ch := <-offParked:
+				close(ch)
+				select {
+				case l := <-timedOut:
+					ops[i].ID = ackOf[l]
+					if state == 'C' {
+						ok = flush()
+					}
+				case <-time.After(wait):
+					ok = false
+				}
+			case <-time.After(wait):
+				ok = false
+			}
 		case "recv":
 			idText := ""
 			if op.ID >= 0 {
@@ -366,6 +422,15 @@ func runOffline(ops []offOp) offCase {
 		}
 	}
 	manager.Close()
+	for offParked != nil { // timers of this history that were never let go
+		select {
+		case ch := <-offParked:
+			close(ch)
+			continue
+		case <-time.After(20 * time.Millisecond):
+		}
+		break
+	}
 	return res
 }
 
@@ -429,6 +494,59 @@ func genOffline(r *vk.Rand, maxOps int) []offOp {
 	return ops
 }
 
+// histories with expiring ack time-outs of parked emits (0..3 attachments) between other emits
+func genOfflineTimeouts(r *vk.Rand) []offOp {
+	ops := []offOp{}
+	state := 'D'
+	label := 1
+	pending := 0 // timers armed and not yet let go
+	n := 5 + r.Intn(8)
+	if r.Intn(3) == 0 {
+		ops = append(ops, offOp{Op: "open"}, offOp{Op: "reply"}, offOp{Op: "close"})
+	}
+	for len(ops) < n {
+		k := r.Intn(10)
+		switch {
+		case k < 3:
+			ops = append(ops, offOp{Op: "emit", L: label, Vol: r.Intn(5) == 0, Ack: true, Tmo: true, Att: r.Intn(4)})
+			label++
+			pending++
+		case k < 6:
+			ops = append(ops, offOp{Op: "emit", L: label, Vol: r.Intn(5) == 0, Ack: r.Intn(3) == 0, Att: []int{0, 0, 1, 2}[r.Intn(4)]})
+			label++
+		case k < 8:
+			if pending > 0 {
+				ops = append(ops, offOp{Op: "timeout"})
+				pending--
+			}
+		default:
+			switch state {
+			case 'D':
+				ops = append(ops, offOp{Op: "open"})
+				state = 'P'
+			case 'P':
+				if r.Intn(2) == 0 {
+					ops = append(ops, offOp{Op: "reply"})
+					state = 'C'
+				}
+			default:
+				if r.Intn(3) == 0 {
+					ops = append(ops, offOp{Op: "close"})
+					state = 'D'
+				}
+			}
+		}
+	}
+	if state == 'D' {
+		ops = append(ops, offOp{Op: "open"})
+		state = 'P'
+	}
+	if state == 'P' {
+		ops = append(ops, offOp{Op: "reply"})
+	}
+	return ops
+}
+
 func offlineMain(args []string) error {
 	fs := flag.NewFlagSet("offline", flag.ExitOnError)
 	seed := fs.Uint64("seed", 1, "")
@@ -451,6 +569,12 @@ func offlineMain(args []string) error {
 		for i := range ops {
 			if ops[i].Op == "recv" && !strings.Contains(*replay, `"id"`) {
 				ops[i].ID = 0
+			}
+		}
+		for _, o := range ops {
+			if o.Op == "timeout" {
+				offParked = make(chan chan struct{}, 256)
+				sio.VerifSetYieldHandler(offYield)
 			}
 		}
 		out.Put(runOffline(ops))
@@ -509,5 +633,36 @@ func offlineMain(args []string) error {
 	for _, res := range results {
 		out.Put(res)
 	}
+	// histories with expiring time-outs: one at a time, timer goroutines held at the yield point
+	T := func(l int, vol bool, att int) offOp {
+		return offOp{Op: "emit", L: l, Vol: vol, Ack: true, Tmo: true, Att: att}
+	}
+	Z := offOp{Op: "timeout"}
+	tcases := [][]offOp{
+		{E(1, false, false, 0), T(2, false, 1), E(3, false, false, 0), Z, E(4, false, false, 0), O, Y},
+		{T(1, false, 0), T(2, false, 2), T(3, false, 3), Z, Z, E(4, false, true, 1), O, Z, E(5, false, false, 0), Y},
+		{O, T(1, false, 3), E(2, false, false, 2), T(3, true, 1), Z, Z, Y, E(4, false, false, 0)},
+		{O, Y, X, E(1, false, false, 0), T(2, false, 2), E(3, false, true, 0), Z, O, Y},
+		{T(1, false, 1), O, Y, Z, E(2, false, false, 0)}, // time-out after the packet has left: nothing to purge
+	}
+	nt := *n / 4
+	if *n == 0 {
+		nt = 0
+	}
+	for i := 0; i < nt; i++ {
+		tcases = append(tcases, genOfflineTimeouts(r))
+	}
+	offParked = make(chan chan struct{}, 256)
+	sio.VerifSetYieldHandler(offYield)
+	for _, ops := range tcases {
+		res := runOffline(ops)
+		if res.Timeout != "" {
+			res = runOffline(ops)
+			res.Retried = true
+		}
+		out.Put(res)
+	}
+	sio.VerifSetYieldHandler(nil)
+	offParked = nil
 	return nil
 }
